@@ -56,7 +56,8 @@ def gen_ddl(rng, mysql_types):
     if rng.random() < 0.2:
         items.append("KEY idx1 (" + names[-1] + ")")
     s = "CREATE TABLE " + ("IF NOT EXISTS " if rng.random() < 0.2 else "") + rng.choice(["t", "db.t1", "`s`.`u`", "`order`"]) + " (" + ", ".join(items) + ")"
-    for o in rng.sample(["ENGINE=InnoDB", "DEFAULT CHARSET=utf8mb4", "COMMENT='tbl'", "COMMENT 'the table'", "AUTO_INCREMENT=7"], rng.randint(0, 3)):
+    for o in rng.sample(["ENGINE=InnoDB", "DEFAULT CHARSET=utf8mb4", "COMMENT='tbl'", "COMMENT 'the table'", "AUTO_INCREMENT=7",
+                         "PARTITIONED BY (dt VARCHAR(8) COMMENT 'day', shard INT(11))", "PARTITIONED BY (p BIGINT(20))"], rng.randint(0, 3)):
         s += " " + o
     return s
 
@@ -73,7 +74,7 @@ def gen_ops(rng):
         elif k < 0.8:
             ops.append("ac:" + w(rng.choice(NEWCOLS)))
         else:
-            ops.append("apc:" + w(rng.choice(NEWCOLS[:2])))
+            ops.append("apc:" + w(rng.choice(NEWCOLS)))
     return ops
 
 
